@@ -82,6 +82,10 @@ def setup(E, shape):
     lamb_max = E.real("lamb_max", lo=1, lo_strict=True)
     rho0 = E.real("rho0", lo=0, lo_strict=True)
     obj_lower = E.real("obj_lower_limit")
+    if shape.get("deriv_check"):
+        kw["deriv_check"] = P.DerivCheck.CheckAll
+        kw["deriv_pert"] = 2.0 ** -20
+        kw["deriv_tol"] = E.real("deriv_tol", lo=0, lo_strict=True)
     params = P.Params(
         penalty_update=P.PenaltyUpdate[pol],
         collect_path=shape.get("collect_path", True),
@@ -149,12 +153,17 @@ def run(ctx):
     """run the real solve; returns result or None on the deliberate step-size abort"""
     E = ctx.E
     try:
-        ctx.res = ctx.solver.solve(arr(ctx.x0), arr(ctx.y0) if ctx.spec["m"] else None)
+        ctx.x0_arr = arr(ctx.x0)
+        ctx.res = ctx.solver.solve(ctx.x0_arr, arr(ctx.y0) if ctx.spec["m"] else None)
         ctx.aborted = False
     except Exception as e:
         if "Inverse step size" in str(e) and type(e) is Exception:
             ctx.res = None
             ctx.aborted = True
+        elif type(e).__name__ == "DerivError" and ctx.shape.get("deriv_check"):
+            ctx.res = None
+            ctx.aborted = True
+            ctx.deriv_error = True
         else:
             raise
     return ctx.res
@@ -216,9 +225,14 @@ def check(ctx):
             if not moved:
                 if ctx.pol not in ("ObjectiveFilter", "LagrangianFilter"):
                     E.prove(t["rho"] == q["rho"], "C16.rho_changes_only_on_accept")
+    if getattr(ctx, "deriv_error", False):
+        E.prove(len(trials) == 0, "C19.derivative_error_is_raised_before_the_first_step")
+        return
     if ctx.aborted:
         E.prove(trials[-1]["lam"] >= p.lamb_max, "C15.abort_only_at_lamb_max")
         return
+    if ctx.shape.get("deriv_check"):
+        E.prove(common.eq_all(items(ctx.x0_arr), ctx.x0), "C19.check_leaves_the_start_point_unchanged")
     res = ctx.res
     st = res.status
     # final iterate according to the trial log
@@ -343,7 +357,7 @@ def loop_tasks(combos, K, opts=None):
     out = []
     for c in combos:
         sh = dict(K=K, policy=c.get("policy", "DualNorm"), vars=c.get("vars", ["boxed"]), cons=c.get("cons", []))
-        for k in ("limit", "time_limit", "collect_path", "fmt"):
+        for k in ("limit", "time_limit", "collect_path", "fmt", "deriv_check"):
             if k in c:
                 sh[k] = c[k]
         o = dict(mulmode="uf", timeout_ms=20000)
